@@ -11,6 +11,8 @@ from .families import FAMILIES  # noqa: F401  (re-exported)
 
 QUICK_GEN = 150
 THOROUGH_GEN = 1500
+QUICK_TWIST = 0     # neighbourhood mutants (enabled after the models are validated on them)
+THOROUGH_TWIST = 0
 
 PROPS = {
     "C18": {
@@ -23,10 +25,10 @@ PROPS = {
     },
     "C01": {"families": ["api_optimize", "norm_none", "cleanup_execute", "unused_execute", "projection_execute"], "oracle": "sem"},
     "C02": {"families": ["unify_pairs", "unify_sequences", "sumchains_get_var", "sumchains_replace_optimize", "sumchains_execute", "minmax_replace_minimize", "minmax_replace_sum", "minmax_execute", "inline_minimize", "inline_execute"], "oracle": "sem"},
-    "C03": {"families": ["binding_body", "binding_head", "norm_inline", "cleanup_mappings", "dep_create_domain"], "oracle": "struct"},
-    "C04": {"families": ["unique_variables", "unique_names", "binding_body"], "oracle": "struct"},
+    "C03": {"families": ["binding_body", "binding_head", "norm_inline", "norm_preprocess", "norm_expand_comparisons", "norm_replace_old_aggregates", "cleanup_mappings", "dep_create_domain", "api_optimize"], "oracle": "struct"},
+    "C04": {"families": ["unique_variables", "unique_names", "binding_body", "binding_head", "duplication_occurrences", "duplication_collect", "duplication_execute", "projection_good_split", "projection_rule", "api_optimize"], "oracle": "struct"},
     "C05": {"families": ["norm_replace_old_aggregates", "norm_remove_bounds", "norm_expand_comparisons", "norm_unpool", "norm_preprocess", "norm_exline", "norm_inline", "norm_none"], "oracle": "sem"},
-    "C06": {"families": ["projection_execute", "cleanup_execute", "symmetry_execute", "minmax_execute", "sumchains_execute"], "oracle": "sem"},
+    "C06": {"families": ["projection_good_split", "projection_rule", "projection_execute", "cleanup_execute", "symmetry_execute", "minmax_execute", "sumchains_execute", "api_optimize"], "oracle": "sem"},
     "C07": {"families": ["unique_variables", "unique_names"], "oracle": "struct"},
     "C17": {"families": [], "oracle": "struct", "quick_cap": 150},
     "C20": {"families": ["dep_static", "dep_domains", "dep_create_domain", "dep_names", "dep_chain"], "oracle": "struct"},
@@ -50,7 +52,9 @@ PROPS = {
 
 def inputs_for(prop, tier, rng):
     n = THOROUGH_GEN if tier == "thorough" else QUICK_GEN
-    return inp_mod.curated() + inp_mod.harvest() + inp_mod.generated(rng.randrange(1 << 30), n)
+    base = inp_mod.curated() + inp_mod.harvest()
+    twist = inp_mod.neighbourhood(base, rng.randrange(1 << 30), THOROUGH_TWIST if tier == "thorough" else QUICK_TWIST)
+    return base + inp_mod.generated(rng.randrange(1 << 30), n) + twist
 
 
 # ---------------------------------------------------------------------------------------------
